@@ -17,7 +17,7 @@ partial def natHex (n : Nat) : String :=
 
 def showUnit : SUnit → String
   | .ch c => natHex c
-  | .byte b => "b" ++ natHex b
+  | .byte b => "B" ++ natHex b
 
 def showNumVal : NumVal → String
   | .int n => s!"I{n}"
